@@ -90,10 +90,7 @@ NONTRIV = {"paren-sensitive", "call", "cond", "ccond", "inter-uses-inter"}
 
 
 def load_and_generate(text, what="C01", **kw):
-    try:
-        ode = B.load(text)
-    except Exception as ex:
-        raise Violation(f"{what}:load-rejected:{type(ex).__name__}", {"text": text, "error": str(ex)[:500]})
+    ode = oracle.load_or_skip(text)
     try:
         code = B.py_code(ode, **kw)
     except Exception as ex:
